@@ -7,7 +7,7 @@ props = [json.loads(l) for l in open(os.path.join(V, 'properties.jsonl'))]
 E1 = "E1 vinst+vsched (real code under a cooperative scheduler, preemption-bounded exhaustive schedule enumeration)"
 claimed = {
  "C05": dict(engine=E1, design="5 (C05), 2 (E1)",
-   text="Every schedule, up to the stated preemption bound, of ~2100 closed scenarios {12 histories: nothing ever added, idle, events or an error pending, a move in from an unwatched place followed by renames, injected overflow, read fault/short read/EOF} x {10 control programs incl. Close||Close, Close||Add, Add||Remove} x {6 consumer configurations} x {3 Events capacities} is executed on the instrumented real code against the real kernel; the property holds iff no maximal execution ends with an API call that has not returned. Also four sequential move histories (with and without a stored rename cookie, in bursts) whose oracle is just that every call returned. Exhaustive within the bound, which is the right level for a deadlock/liveness property of a 3-4 thread protocol; the thorough tier adds global-state-key pruning and, under a time budget per scenario, a pass without any preemption bound whose reach is reported separately in the evidence.",
+   text="Every schedule, up to the stated preemption bound, of ~2100 closed scenarios {13 histories: nothing ever added, an injected unmount, idle, events or an error pending, a move in from an unwatched place followed by renames, injected overflow, read fault/short read/EOF} x {10 control programs incl. Close||Close, Close||Add, Add||Remove} x {6 consumer configurations} x {3 Events capacities} is executed on the instrumented real code against the real kernel; the property holds iff no maximal execution ends with an API call that has not returned. Also four sequential move histories (with and without a stored rename cookie, in bursts) whose oracle is just that every call returned. Exhaustive within the bound, which is the right level for a deadlock/liveness property of a 3-4 thread protocol; the thorough tier adds global-state-key pruning and, under a time budget per scenario, a pass without any preemption bound whose reach is reported separately in the evidence.",
    note="Trusted: vinst's mechanical rewrite (sync/channel/select/go/inotify syscalls -> shim), the shim's Go channel and mutex semantics, sequential consistency at synchronisation points. Bounds: preemption bound 1-2 (quick) / 2-3 (thorough), the listed scenario product. State-key pruning (thorough only) additionally trusts that shared memory is read under a mutex (checked by the lockset probes on every execution) and the key's description of kernel state (DESIGN section 2).",
    technique="stateless model checking: exhaustive preemption-bounded schedule enumeration of the real code under a controlled scheduler"),
  "C06": dict(engine=E1, design="5 (C06), 2 (E1)",
